@@ -416,6 +416,12 @@ func runC07(r *Run) {
 			r.Check("client.GetEntries:element", ok, r.Where(c), "the decoded entry is Entries[i] of the reply, i being the counter the index is computed from: "+elem)
 		}
 	}
+
+	// extra_data is rebuilt from the external chain store when that is configured: the bytes served
+	// are the stored bytes only if that indirection is exact — rule sets of C14
+	r.Shared("C07.R7", func() { runC14(r) })
+	// "every served entry decodes": the leaf / extra-data decoders and their fatal/non-fatal split — rule set C12.R5
+	r.Shared("C07.R8", func() { c12Decoder(r) })
 }
 
 // lin2 joins normal-form terms in canonical (textual) order; the constant goes last.
